@@ -179,6 +179,7 @@ func C20(c *Ctx) {
 	}
 	// ---- e: sibling agreement on literal decoding
 	c20Decoders(c)
+	flagMapping(c, c.G(), "C20-e")
 	// ---- f: the two front-end grammars agree on the rules they share
 	siblingGrammars(c, "C20-f")
 	// ---- c: coverage
